@@ -36,10 +36,21 @@ def sGomaxprocs : Bytes := Bytes.ofString "/gomaxprocs"
 def isGroup (k : Bytes) : Bool := k == sConfig || k == sFullname
 def isNameKey (k : Bytes) : Bool := k == sName || k.head? == some 47
 
-/-- Every specific key named in any expression of the parser. -/
+/-- A part that makes `Parse` reject the whole expression: an order named `fixed` without a value
+list, a fixed order on `.config`, the key `.unit`, an empty key. -/
+def rejectedPart (sp : Spec) : Bool :=
+  (match sp.order with | .fixed [] => true | _ => false) ||
+  (sp.key == sConfig && (match sp.order with | .fixed _ => true | _ => false)) ||
+  sp.key == sUnit || sp.key.isEmpty
+
+/-- An expression is accepted (yields a projection) iff none of its parts is rejected. -/
+def accepted (specs : List Spec) : Bool := !specs.any rejectedPart
+
+/-- Every specific key named in any ACCEPTED expression of the parser (a rejected `Parse` call yields
+no projection and excludes nothing). -/
 def specificKeys (ops : List Op) : List Bytes :=
   ops.flatMap fun
-    | .parse _ specs => (specs.map (·.key)).filter (!isGroup ·)
+    | .parse _ specs => if accepted specs then (specs.map (·.key)).filter (!isGroup ·) else []
     | _ => []
 
 /-- Value of a specific key in a result. -/
@@ -71,6 +82,9 @@ def fileVal (k : Bytes) (r : Res) : Bytes :=
 structure Obs where
   res : Res
   unit : Option Bytes
+  /-- false: the result went through the projection's closures (new `.config` keys become fields)
+  but no key was made — `ProjectValues` of a result without measurements on a `.unit` projection -/
+  interned : Bool := true
   deriving Repr, Inhabited
 
 inductive ColKind
@@ -112,8 +126,10 @@ def projections (ops : List Op) : List PSpec :=
     let (acc, hc, hf) := st
     match op with
     | .parse u specs =>
-      (acc ++ [{ parts := specs, unit := u }],
-       hc || specs.any (·.key == sConfig), hf || specs.any (·.key == sFullname))
+      if accepted specs then
+        (acc ++ [{ parts := specs, unit := u }],
+         hc || specs.any (·.key == sConfig), hf || specs.any (·.key == sFullname))
+      else st
     | .residue =>
       (acc ++ [{ parts := (if hc then [] else [{ key := sConfig, order := .first }]) ++
                           (if hf then [] else [{ key := sFullname, order := .first }]), unit := false }],
@@ -125,13 +141,15 @@ def projections (ops : List Op) : List PSpec :=
 def observations (ops : List Op) (ps : List PSpec) (i : Nat) : List Obs :=
   let isUnit := (ps[i]?.map (·.unit)).getD false
   let expand := fun (values : Bool) (r : Res) =>
-    if values && isUnit then r.units.map fun u => { res := r, unit := some u : Obs }
+    if values && isUnit then
+      (if r.units.isEmpty then [{ res := r, unit := none, interned := false : Obs }]
+       else r.units.map fun u => { res := r, unit := some u : Obs })
     else [{ res := r, unit := none : Obs }]
   -- the number of projections that exist when an operation runs
   let step := fun (st : List Obs × Nat) (op : Op) =>
     let (acc, np) := st
     match op with
-    | .parse _ _ => (acc, np + 1)
+    | .parse _ specs => (acc, if accepted specs then np + 1 else np)
     | .residue => (acc, np + 1)
     | .proj v j r => (if j == i && i < np then acc ++ expand v r else acc, np)
     | .all r => (if i < np then acc ++ expand isUnit r else acc, np)
